@@ -218,9 +218,10 @@ class Summary:
         self.effects = []
         self.unknown_calls = []
         self.returns_seen = 0
+        self.ret_fn = frozenset()  # callables the returned value may be (descriptors of AV.fn: valid across functions)
 
     def key(self):
-        return (frozenset(self.mut), frozenset(self.ret), self.ret_kind, frozenset(self.stores))
+        return (frozenset(self.mut), frozenset(self.ret), self.ret_kind, frozenset(self.stores), self.ret_fn)
 
 
 class Resolver:
@@ -244,6 +245,31 @@ class Resolver:
                     self.module_consts[(rel_, st_.targets[0].id)] = st_.value
                 elif isinstance(st_, ast.AnnAssign) and isinstance(st_.target, ast.Name) and st_.value is not None:
                     self.module_consts[(rel_, st_.target.id)] = st_.value
+        # registries filled by decorators: `@_rule(_SINK_RULES, "input")` (the table is handed to the decorator) or `@_handles("and")`
+        # (the decorator's body stores into a module-level table): the decorated function may be any member of such a table
+        self.decorator_registered = {}  # (file, TABLE) -> {function name}
+        for rel_, tree_ in repo.tree.items():
+            consts_ = {k_[1] for k_ in self.module_consts if k_[0] == rel_}
+            defs_ = {st_.name: st_ for st_ in tree_.body if isinstance(st_, ast.FunctionDef)}
+            for st_ in ast.walk(tree_):
+                if not isinstance(st_, ast.FunctionDef):
+                    continue
+                for dec_ in st_.decorator_list:
+                    if not (isinstance(dec_, ast.Call) and isinstance(dec_.func, ast.Name) and dec_.func.id in defs_):
+                        continue
+                    tables_ = {a_.id for a_ in dec_.args if isinstance(a_, ast.Name) and a_.id in consts_}
+                    for x_ in ast.walk(defs_[dec_.func.id]):
+                        tgt_ = None
+                        if isinstance(x_, ast.Call) and isinstance(x_.func, ast.Attribute) and x_.func.attr in ("append", "add", "setdefault", "update", "insert", "extend") and isinstance(x_.func.value, ast.Name):
+                            tgt_ = x_.func.value.id
+                        elif isinstance(x_, (ast.Assign, ast.AugAssign)):
+                            for t_ in (x_.targets if isinstance(x_, ast.Assign) else [x_.target]):
+                                if isinstance(t_, ast.Subscript) and isinstance(t_.value, ast.Name):
+                                    tgt_ = t_.value.id
+                        if tgt_ in consts_:
+                            tables_.add(tgt_)
+                    for t_ in tables_:
+                        self.decorator_registered.setdefault((rel_, t_), set()).add(st_.name)
         self.row_tables = {}  # (file, NAME) -> [row expression nodes]   for NAME = [(a, lambda ...: ..., "msg"), ...]
         self.accessors = {}  # (file, NAME) -> ('method' | 'attr', name)   for NAME = methodcaller("io") / attrgetter("x")
         for rel, tree in repo.tree.items():
@@ -534,6 +560,7 @@ class FuncAnalysis:
                 for (p, part) in getattr(self.ret_av, slot):
                     self.s.ret.add((slot, p, part))
             self.s.ret_kind = self.ret_av.kind
+            self.s.ret_fn = frozenset(d for d in self.ret_av.fn if d[0] in ("func", "lambda", "partial", "hclass", "accessor"))
         return self.s
 
     # ---- environment helpers ------------------------------------------
@@ -971,6 +998,9 @@ class FuncAnalysis:
                 finally:
                     self.env = saved_env
                     self._in_module_const -= 1
+                reg = {("func", self.rel, fname) for fname in self.an.res.decorator_registered.get(key, ()) if (self.rel, fname) in self.an.summ}
+                if reg:
+                    self.an.module_const_fn[key] = frozenset(self.an.module_const_fn[key]) | reg
             fn = self.an.module_const_fn[key]
             return AV(fn=fn) if fn else FRESH
         return FRESH
@@ -1014,9 +1044,10 @@ class FuncAnalysis:
             else:
                 tags.add((p, part))
         out = AV(tags, None, base.g, base.r, base.elems)
-        if base.any_tags() and a not in ("nodes", "edges", "pred", "succ", "adj", "_node", "_adj", "_pred", "_succ", "degree", "in_degree", "out_degree"):
-            # `c.set_output` / `g.add_edge` taken as a value (a bound method): calling the value later is calling the method on `base`
-            self.an.boundmethods[id(n)] = (base, a)
+        if a not in ("nodes", "edges", "pred", "succ", "adj", "_node", "_adj", "_pred", "_succ", "degree", "in_degree", "out_degree") and not (a.startswith("__") and a.endswith("__") and a not in ("__contains__", "__getitem__", "__setitem__", "__delitem__", "__ior__")):
+            # `c.set_output` / `g.add_edge` / `found.update` taken as a value (a bound method): calling the value later is calling the
+            # method on `base` - also for a fresh local container (what the call stores goes into that container)
+            self.an.boundmethods[id(n)] = (base, a, n)
             out = out.with_fn(out.fn | {("boundmethod", id(n))})
         return out
 
@@ -1291,6 +1322,15 @@ class FuncAnalysis:
         f = n.func
         if isinstance(f, ast.Name) and f.id in self.env:
             return None
+        if name == "map" and len(n.args) == 2 and isinstance(n.args[0], ast.Name) and n.args[0].id not in self.env and isinstance(f, ast.Name):
+            # `map(set, views)`: a builtin constructor applied to every element - each result is a new container holding the
+            # element's elements (node names ...), a scalar builtin gives a fresh value
+            inner = elem_of(argav[1])
+            if n.args[0].id in ("set", "list", "tuple", "frozenset", "sorted", "dict"):
+                held = elem_of(inner)
+                return AV((), None, elems=flat(held) | bb_tags(inner))
+            if n.args[0].id in ("len", "str", "int", "bool", "repr", "float", "hash", "sum", "any", "all", "abs"):
+                return FRESH
         if isinstance(f, ast.Attribute) and not (isinstance(f.value, ast.Name) and f.value.id in ("itertools", "functools", "collections", "builtins") or name == "sort"):
             return None
         cands = [(i, argav[i]) for i in spec[0] if i < len(argav)] + [(k, kwav[k]) for k in spec[1] if k in kwav]
@@ -1352,8 +1392,14 @@ class FuncAnalysis:
                 base, attr = self.an.recmethods[d[1]]
                 av = self.call_record_method(n, base, attr, argav, kwav)
             elif d[0] == "boundmethod":
-                base, attr = self.an.boundmethods[d[1]]
-                av = self.call_method(n, base, attr, argav, kwav)
+                base, attr, attr_node = self.an.boundmethods[d[1]]
+                # the call as if written on the receiver expression itself, so that what a mutator stores lands in the receiver
+                fake = ast.copy_location(ast.Call(func=attr_node, args=list(getattr(n, "args", [])), keywords=list(getattr(n, "keywords", []))), n)
+                try:
+                    base = base.join(self.ev_quiet(attr_node.value))
+                except Exception:
+                    pass
+                av = self.call_record_method(fake, base, attr, argav, kwav) if base.kind == "record" else self.call_method(fake, base, attr, argav, kwav)
             elif d[0] == "hclass":
                 av = self.construct(n, ("class", d[1], d[2]), argav, kwav)
             else:
@@ -1677,7 +1723,8 @@ class FuncAnalysis:
             if isinstance(n.func, ast.Attribute):
                 carried = set()
                 for a in allargs:
-                    carried |= flat(a)
+                    # `s.update(xs)` / `l.extend(xs)` / `s |= xs` put the *elements* of xs into the container, `add` / `append` the object itself
+                    carried |= (flat(elem_of(a)) | bb_tags(a)) if mname in ("update", "extend", "__ior__", "intersection_update", "difference_update", "symmetric_difference_update") and a.kind != "record" else flat(a)
                 self.store_into(n.func.value, "elems", carried)
             if mname in ("pop", "popitem", "popleft", "setdefault", "get"):
                 return elem_of(recv)
@@ -1699,6 +1746,10 @@ class FuncAnalysis:
             # G.nodes(data=True) / G.nodes.data() / G.nodes.items() / G.nodes.values(): the elements are (or contain) the LIVE
             # attribute dictionaries of the nodes - dict(...) / list(...) of it still holds them
             ad = {(p, "attrdict") for (p, part) in recv.tags if part in ("graph", "nodeview") or (part == "self" and recv.kind == "Graph")}
+            key = next((k.value for k in getattr(n, "keywords", ()) if k.arg == "data"), None) or (n.args[0] if mname in ("nodes", "data") and getattr(n, "args", None) else None)
+            if isinstance(key, ast.Constant) and key.value in ("type", "output"):
+                # G.nodes(data="output") / G.nodes.data("type"): pairs of a node name and the *value* of that attribute (a str / bool)
+                return AV({(p, "nodeview") for (p, _) in ad}, None, elems=set(recv.elems))
             return AV({(p, "nodeview") for (p, _) in ad}, None, elems=ad | set(recv.elems))
         if mname in PURE_VIEW_METHODS:
             tags = set()
@@ -1843,7 +1894,9 @@ class FuncAnalysis:
                 elems |= pr
                 if part == "self":
                     elems |= flat(actual[p])
-        return AV(tags, summ.ret_kind, g, r, elems)
+        # callables handed in (alone or inside a table) may come back as the result (`_lookup(table, key)`): the result carries them
+        fn = (frozenset().union(*[a_.fn for a_ in actual.values()]) if actual else frozenset()) | summ.ret_fn
+        return AV(tags, summ.ret_kind, g, r, elems, fn=fn)
 
 
 def func_params_lambda(n):
